@@ -205,6 +205,11 @@ func (f *c17xFunc) collect(body ast.Node) {
 					if c17xLoggerType.MatchString(c17xText(f.fset, fl.Type)) {
 						f.loggers[nm.Name] = true
 					}
+					if f.me != nil {
+						if _, dup := f.me.ptypes[nm.Name]; !dup {
+							f.me.ptypes[nm.Name] = c17xText(f.fset, fl.Type)
+						}
+					}
 				}
 			}
 		}
